@@ -398,6 +398,8 @@ class BuilderAI:
         for p, f in self.fns.items():
             if p in self.roots:
                 continue
+            if any(a in (t or "") for a in self.cursor_adts for t in list(f.sig_inputs[:1]) + [f.sig_output or ""]):
+                continue        # the steps of a cursor are modelled where they are used, not analysed
             if f.params and p not in self.called:
                 out.append(p)
                 continue
@@ -1090,6 +1092,9 @@ class BuilderAI:
                 self._guard_ob(n, l, v, then_env[l].rules, "guard: the branch for %s panics" % sorted(then_env[l].rules))
             elif "else" in n and diverges(n["else"]) and is_panic(n["else"]):
                 self._guard_ob(n, l, v, else_env[l].rules, "guard: the branch for %s panics" % sorted(else_env[l].rules))
+            elif diverges(n["then"]) or ("else" in n and diverges(n["else"])):
+                # the rule of the pair is checked and the other case leaves without a panic (an error is returned): nothing to prove
+                self._guard_ob(n, l, v, frozenset(), "guard: the other rules leave the function without a panic")
         self._ctx.append(id(n["then"]))
         a = self._ev(n["then"], then_env)
         self._ctx[-1] = id(n)
